@@ -444,8 +444,72 @@ def r16_6(ctx):
     return r
 
 
+def r16_7(ctx):
+    r = Rule("R16.7", "a member key written as an identifier and the same key written as a string literal are treated alike wherever members are selected by name",
+             "`Omit<T, 'aria-label'>` keeps exactly the quoted keys it should drop when only the identifier arm carries the negation")
+    n = 0
+    for b in ctx.facts.hir:
+        if b["crate"] != VISITOR_CRATE or b.get("mac") or "resolve_type" not in b["path"]:
+            continue
+        for m in walk(b["body"]):
+            if m.get("k") != "Match" or (m.get("ty") or "") != "bool":
+                continue
+            ident_arm = str_arm = None
+            for a in m["arms"]:
+                ps = pat_str(a["pat"])
+                if ps.startswith("Ident(") and a.get("guard") is None:
+                    ident_arm = a
+                elif ps.startswith("Lit(Str(") and a.get("guard") is None:
+                    str_arm = a
+            if ident_arm is None or str_arm is None:
+                continue
+            n += 1
+            r.saw(b["path"])
+            ti = re.sub(r"\bv\d+\.(sym|value)\b", "KEY", expr_str(ident_arm["body"], names={}))
+            ts = re.sub(r"\bv\d+\.(sym|value)\b", "KEY", expr_str(str_arm["body"], names={}))
+            key = "%s: identifier key and quoted key select alike" % b["path"]
+            c = sum(1 for o in r.obs if o["key"].startswith(key))
+            r.ob(key if not c else "%s #%d" % (key, c + 1), ti == ts, C.mloc(b, m),
+                 "both arms: %s" % ti[:80] if ti == ts else "identifier arm `%s` but string arm `%s`" % (ti[:80], ts[:80]))
+    r.ob("name-selection matches examined", n > 0, "-", "%d boolean match(es) with an identifier-key and a quoted-key arm" % n)
+    return r
+
+
+def r16_8(ctx):
+    r = Rule("R16.8", "the member accumulator is append-only: a utility type transforms the members of its argument (collected in a vector of their own), never what was collected before",
+             "`A & Partial<B>` makes A's members optional when Partial post-processes the shared accumulator")
+    from ..cfg import calls, callee_name
+    from .influence import flow_of
+    tr = C.role_or_fail(ctx, r, "type_elements_resolver")
+    if not tr:
+        return r
+    fam = {C.role(ctx, x)["path"] for x in ("type_elements_resolver", "indexed_access_resolver") if C.role(ctx, x)}
+    APPEND = re.compile(r"(Vec::<T, A>::(push|extend_from_slice|append|reserve)|Extend<T>>::extend|Extend<&'a T>>::extend)$")
+    n = 0
+    for mb in C.family(ctx, tr):
+        fl = flow_of(ctx, mb)
+        r.saw(mb["path"])
+        for i, t in calls(mb):
+            for ai, (a, ty) in enumerate(zip(t["args"], t.get("arg_tys", []))):
+                if not ty.startswith("&mut alloc::vec::Vec<resolve_type::RefinedTsTypeElement>"):
+                    continue
+                srcs = fl.op_sources(a)
+                is_acc = any(x[0] == "param" and x[1] == 3 for x in srcs) or any(x[0] == "upvar" and x[1].lstrip("*") in ("props",) for x in srcs)
+                if not is_acc:
+                    continue
+                n += 1
+                name = callee_name(t)
+                ok = bool(APPEND.search(name)) or name in fam
+                key = "%s: %s on the accumulator" % (mb["path"], name.split("::")[-1])
+                c = sum(1 for o in r.obs if o["key"].startswith(key))
+                r.ob(key if not c else "%s #%d" % (key, c + 1), ok, C.mloc(mb, t),
+                     "append / recursive collection" if ok else "%s can change members that were collected before this type was reached" % name.split("::")[-1])
+    r.ob("uses of the accumulator examined", n > 0, "-", "%d call(s) taking the accumulator by &mut" % n)
+    return r
+
+
 def rules(ctx):
-    return [r16_1, r16_2, r16_3, r16_4, r16_5, r16_6]
+    return [r16_1, r16_2, r16_3, r16_4, r16_5, r16_6, r16_7, r16_8]
 
 
 EXPLANATION = (
